@@ -50,12 +50,13 @@ def analytic(kind, r):
     return psi, dR, dZ
 
 
-def build_eq(kind, method, r, shape=None, box=None, fpol_kind="linear", psi_sign=1.0):
+def build_eq(kind, method, r, shape=None, box=None, fpol_kind="linear", psi_sign=1.0, extra=None):
     from hypnotoad import tokamak
 
     with warnings.catch_warnings(), contextlib.redirect_stdout(io.StringIO()):
         warnings.simplefilter("ignore")
         opts = dict(psi_interpolation_method=method)
+        opts.update(extra or {})
         if kind in ("lsn", "cdn", "ldn", "udn", "usn"):
             ex = os.path.join(vlib.REPO, "examples", "tokamak")
             if ex not in sys.path:
@@ -78,6 +79,11 @@ def build_eq(kind, method, r, shape=None, box=None, fpol_kind="linear", psi_sign
         t = np.linspace(0, 1, len(p1))
         fpol = {"linear": 2.5 + 0.8 * t, "const": np.full(len(p1), 2.5), "quad": 2.0 + 0.5 * t - 0.9 * t ** 2}[fpol_kind]
         eq = tokamak.TokamakEquilibrium(r1, z1, p2.copy(), p1.copy(), fpol.copy(), make_regions=False, settings=opts)
+        # what the interpolant is supposed to reproduce at the nodes: the input after the documented sign / scaling options
+        if opts.get("reverse_current"):
+            p2 = -p2
+        if opts.get("psi_divide_twopi"):
+            p2 = p2 / (2 * np.pi)
     return eq, r1, z1, p2, ana
 
 
@@ -229,6 +235,9 @@ def run(res, tier):
         cases.append(("lsn", method, dict(fpol_kind="linear")))
         cases.append(("ldn", method, dict(fpol_kind="quad")))
         cases.append(("cdn", method, dict(fpol_kind="linear", psi_sign=-1.0)))
+        # the sign / scaling options act on the arrays before the interpolants are built: everything must stay mutually consistent
+        cases.append(("lsn", method, dict(fpol_kind="quad", extra={"reverse_Bt": True})))
+        cases.append(("ldn", method, dict(fpol_kind="linear", extra={"reverse_current": True, "psi_divide_twopi": True})))
         cases.append(("ana", method, dict(shape=(41, 57), box=((1.0, 2.0), (-1.0, 1.0)))))
         cases.append(("ana", method, dict(shape=(33, 97), box=((0.2, 1.0), (-2.0, 2.0)))))      # tall box: max(Z) > max(R)
         cases.append(("ana", method, dict(shape=(64, 40), box=((1.0, 3.0), (0.5, 2.5)))))        # shifted upwards
